@@ -319,6 +319,9 @@ func TestTable(t *testing.T) {
 	rec := ev.Get(ID)
 	rec.SetRule(rule)
 	rec.Assume("the reference big-integer curve arithmetic equals gnark-crypto / crypto/elliptic (cross-validated at start-up)")
+	if !firstShard() {
+		return
+	}
 	for _, name := range []string{"secp256k1", "bn254", "bls12377"} {
 		cv := curves[name]
 		r := cv.R
@@ -388,31 +391,31 @@ var (
 
 func TestGroupLawMin(t *testing.T) {
 	t.Parallel()
-	swProperty(t, []string{"secp256k1", "bn254", "bls12377"}, cheapOps, 10, 150, 6000)
+	swProperty(t, []string{"secp256k1", "bn254", "bls12377"}, cheapOps, 10, 150, 4000)
 }
 
 func TestScalarMulSecp256k1(t *testing.T) {
 	t.Parallel()
-	swProperty(t, []string{"secp256k1"}, mulOps, 4, 60, 3000)
+	swProperty(t, []string{"secp256k1"}, mulOps, 4, 60, 1600)
 }
 
 func TestScalarMulBN254(t *testing.T) {
 	t.Parallel()
-	swProperty(t, []string{"bn254"}, mulOps, 4, 60, 3000)
+	swProperty(t, []string{"bn254"}, mulOps, 4, 60, 1600)
 }
 
 func TestScalarMulNative377(t *testing.T) {
 	t.Parallel()
-	swProperty(t, []string{"bls12377"}, mulOps, 4, 60, 3000)
+	swProperty(t, []string{"bls12377"}, mulOps, 4, 60, 1600)
 }
 
 func TestOtherCurves(t *testing.T) {
 	t.Parallel()
 	names := []string{"p256", "p384", "bls12381"}
 	if ev.Tier() == "thorough" {
-		names = append(names, "bw6761")
+		names = []string{"p256", "p256", "p384", "p384", "bls12381", "bls12381", "bw6761"}
 	}
-	swProperty(t, names, append(append([]string{}, mulOps...), cheapOps...), 0, 45, 3000)
+	swProperty(t, names, append(append([]string{}, mulOps...), cheapOps...), 0, 45, 1000)
 }
 
 // checkSerial is ev.Recorder.Check made safe for t.Parallel tests: rapid reads
@@ -432,3 +435,7 @@ func checkSerial(rec *ev.Recorder, t *testing.T, kind string, n int, prop func(r
 		prop(rt)
 	})
 }
+
+// firstShard: deterministic enumerations (tables, probes) are seed-independent,
+// so in the sharded thorough tier only shard 0 runs them.
+func firstShard() bool { return ev.Tier() != "thorough" || ev.Shard() == 0 }
